@@ -25,8 +25,8 @@ for m in muts:
         for prop, want in m['expect'].items():
             env = dict(os.environ, VERIF_REPO=d, VERIF_NO_EVIDENCE='1')
             r = subprocess.run([os.path.join(ROOT, 'check'), prop], capture_output=True, text=True, env=env)
-            ok = r.returncode == want
-            print('%s %-40s %s -> exit %d (want %d)' % ('ok ' if ok else 'BAD', m['name'], prop, r.returncode, want))
+            ok = (r.returncode in want) if isinstance(want, list) else r.returncode == want
+            print('%s %-40s %s -> exit %d (want %s)' % ('ok ' if ok else 'BAD', m['name'], prop, r.returncode, want))
             if not ok:
                 bad += 1
                 print('   ' + '\n   '.join(r.stdout.strip().split('\n')[-4:]))
